@@ -17,7 +17,7 @@ from tie.framework import TieBroken, g_N, g_bool, g_list, g_opt, run_impl_parall
 PROP = "C03"
 IMPORTS = ("From JV Require Import Lib.Base Model.C03ExnFlow Spec.C03ChannelSpec Gen.C03ExnIR Model.C03Instance Corr.C03Judge.\n"
            "Open Scope N_scope.")
-RULE = ("one case = (parser shape, exit_on_error, parse method, input). Six parser shapes (basic typed options incl. nested "
+RULE = ("one case = (parser shape, exit_on_error, parse method, input[, up to two earlier calls on the same parser object]). Seven parser shapes (one with parser_mode='json'; (basic typed options incl. nested "
         "keys/Any/Union/Enum; subclass types incl. Type[]/Callable/List/Dict of classes; dataclass types incl. List/Dict/nested; "
         "required subcommands with their own --cfg; plain argparse type= callables/choices/nargs/FileType; Path types + "
         "ActionParser), optionally with a default config file. Inputs from a grammar: option names known / unknown / malformed "
@@ -70,7 +70,7 @@ META = {
 }
 
 ENTRIES = ["parse_args", "parse_object", "parse_string", "parse_env", "parse_path"]
-SHAPES = ["basic", "classes", "dataclass", "subcommands", "plain", "paths"]
+SHAPES = ["basic", "classes", "dataclass", "subcommands", "plain", "paths", "json"]
 
 _meta_cache = {}
 
@@ -127,6 +127,7 @@ def validate_implicit_sites():
 # generation
 # ---------------------------------------------------------------------------------------------------------------------
 OPTS = {
+    "json": ["a", "s", "f", "b", "l", "d", "n.x", "n.y.z", "o", "any", "u", "e", "pos", "cfg"],
     "basic": ["a", "s", "f", "b", "l", "d", "n.x", "n.y.z", "o", "any", "u", "e", "pos", "cfg"],
     "classes": ["cal", "ocal", "t", "c", "lcal", "dcal", "a", "cfg"],
     "dataclass": ["dc", "odc", "ldc", "ddc", "out", "a", "cfg"],
@@ -141,7 +142,9 @@ IMPORT_PATHS = ["calendar.Calendar", "calendar.TextCalendar", "calendar.HTMLCale
                 "json.JSONDecoder", "calendar.nomod.X", "5", "", "calendar.isleap", "a b.c",
                 # modules that exist but whose import fails with a plain ImportError (platform guard / optional dependency)
                 "asyncio.windows_events.ProactorEventLoop", "encodings.mbcs.StreamWriter", "c03_needs_extra.Thing", "c03_needs_extra"]
-SCALARS = ["1", "0", "-3", "2.5", "x", "", "null", "true", "1e999", "1_0", "0x1f", "é", "a b", "~", "[]", "{}", "ok", "red", "y", "-", "--", "=", "1e3"]
+ODD_NUMBERS = ["\u00b2", "-\u00b3", "\u2460", "\u2082\u2083", "1\u00b2", "\u0663", "\uff11\uff12", "9" * 4400, "-" + "9" * 4400, "1" + "0" * 4400 + ".5",
+               "0." + "3" * 500, "1e-400", "--1", "1-2.3e", "+5", "1_000", "0b11", "1e", ".e1", "\u00bd"]
+SCALARS = ODD_NUMBERS[:8] + ["1", "0", "-3", "2.5", "x", "", "null", "true", "1e999", "1_0", "0x1f", "é", "a b", "~", "[]", "{}", "ok", "red", "y", "-", "--", "=", "1e3"]
 BROKEN = ["[1,", "{a: ", "\"", "a: b: c", "!!python/object:os.system x", "&x [*x]", "a: &x [*x]", "*undefined", "- &a [*a]", "{a: &x {b: *x}}",
           "? [a]\n: 1", "a\x00b", "{1: 2}", "[[[[[[[[[[1]]]]]]]]]]", "!!binary x", "@", "`", "%YAML 9.9", "---\n- 1\n---\n- 2", "\t- 1", "{a: 1, a: 2}",
           "<<: *x", "!!set {a}", "0o9", ": :", "[1, 2", "'"]
@@ -298,7 +301,8 @@ def yaml_scalar(v):
 def gen_text(rng, shape):
     r = rng.random()
     if r < 0.12:
-        return rng.choice(BROKEN + SCALARS + ["", "- 1", "5", "null", "--", "a: [", "1: 2", "{}", "[]"])
+        # the whole text is one scalar / one broken fragment (what the scalar pre-parser and the loader see on their own)
+        return rng.choice(BROKEN + SCALARS + ODD_NUMBERS + ODD_NUMBERS + ["", "- 1", "5", "null", "--", "a: [", "1: 2", "{}", "[]"])
     lines = []
     for _ in range(rng.choice([1, 1, 2, 3])):
         name = gen_name(rng, shape)
@@ -371,7 +375,7 @@ def gen_dcf(rng, shape):
     if r < 0.86:
         return "a: 3\n"
     if r < 0.90:
-        return rng.choice(["a: x\n", "zz: 1\n", "a: [\n", "\udcff\udcfe", "", "a: &x [*x]\n", "- 1\n", "5\n"])
+        return rng.choice(["a: x\n", "zz: 1\n", "a: [\n", "\udcff\udcfe", "", "a: &x [*x]\n", "- 1\n", "5\n"] + ODD_NUMBERS)
     return gen_text(rng, shape)
 
 
@@ -429,6 +433,18 @@ def directed():
     add("basic", "parse_args", ["--print_config=--"])                              # print-config-value-empty
     add("basic", "parse_args", ["--any=&x [[*x]]"])                                # look-alike indirect cycles (must be rejected cleanly)
     add("basic", "parse_string", "any: &x {a: {a: *x}}\n")
+    for x in (False, True):                                                       # a failed call, then every other parse method
+        failed = {"entry": "parse_args", "input": ["--print_config", "--a=x"]}
+        for entry, inp in (("parse_object", {"a": 2}), ("parse_string", "a: 2\n"), ("parse_env", {"APP_A": "2"}), ("parse_path", "good.yaml"),
+                           ("parse_args", ["--a=2"])):
+            D.append({"shape": "basic", "x": x, "entry": entry, "input": inp, "history": [failed]})
+    for t in ODD_NUMBERS[:6] + ["9" * 4400]:                                       # the whole config text / file / env value is one odd scalar
+        add("basic", "parse_string", t)
+        add("basic", "parse_path", "case.yaml", files={"case.yaml": t})
+        add("basic", "parse_args", ["--cfg=case.yaml"], files={"case.yaml": t})
+        add("basic", "parse_env", {"APP_L": t})
+        add("basic", "parse_env", {"APP_CFG": "case.yaml"}, files={"case.yaml": t})
+        add("basic", "parse_args", [], dcf=t)
     # the channels themselves
     add("basic", "parse_args", ["--a=x"])
     add("basic", "parse_args", ["--zz=1"])
@@ -454,7 +470,7 @@ def directed():
     return D
 
 
-def gen_case(rng, shape=None, entry=None):
+def gen_case(rng, shape=None, entry=None, history=True):
     shape = shape or rng.choice(SHAPES)
     entry = entry or rng.choices(ENTRIES, weights=[40, 20, 20, 10, 10])[0]
     c = {"shape": shape, "entry": entry}
@@ -472,6 +488,20 @@ def gen_case(rng, shape=None, entry=None):
         c["files"] = {"case.yaml": gen_text(rng, shape)}
     if rng.random() < 0.12:
         c["stdin"] = "none"   # a process started with file descriptor 0 closed: sys.stdin is None
+    if history and rng.random() < 0.22:
+        # one or two earlier calls on the same parser object (an application that catches the error and goes on): any parse
+        # method with any input of the grammar; half of the time a parse_args that carries an exit-0 request next to
+        # something that fails
+        hist = []
+        for _ in range(rng.choice([1, 1, 2])):
+            if rng.random() < 0.5:
+                req = rng.choice(["--print_config", "--print_config=comments", "--print_config=skip_null", "-h", "--help"])
+                bad = gen_argv(rng, shape)
+                hist.append({"entry": "parse_args", "input": [req] + bad if rng.random() < 0.7 else bad + [req]})
+            else:
+                h = gen_case(rng, shape, history=False)
+                hist.append({"entry": h["entry"], "input": h["input"]})
+        c["history"] = hist
     dcf = gen_dcf(rng, shape)
     if dcf is not None:
         c["dcf"] = dcf
@@ -589,6 +619,27 @@ def _text_selfref(t):
     return True
 
 
+_ASKS = ("print_config", "help", "version", "-h")
+
+
+def asked(case):
+    """does the input of THIS call (argv / text / object / env; its files and default config) hold a request that ends in exit
+    status 0 — print_config, help, version? Earlier calls on the parser (history) do not count."""
+    def strings(v):
+        if isinstance(v, str):
+            yield v
+        elif isinstance(v, list):
+            for i in v:
+                yield from strings(i)
+        elif isinstance(v, dict):
+            for k, i in v.items():
+                yield from strings(k)
+                yield from strings(i)
+
+    texts = list(strings(case["input"])) + list(strings(case.get("files") or {})) + [case.get("dcf") or ""]
+    return any(a in t.lower() for t in texts for a in _ASKS)
+
+
 def _depth(t):
     d = m = 0
     for ch in t:
@@ -648,15 +699,15 @@ def g_obs(o):
 def term(case, obs):
     m = ir_meta()
     cid, sites = attribute(obs)
-    return "{| c_x := %s; c_entry := %s; c_obs := %s; c_cls := %s; c_sites := %s; c_selfref := %s; c_deep := %s |}" % (
+    return "{| c_x := %s; c_entry := %s; c_obs := %s; c_cls := %s; c_sites := %s; c_selfref := %s; c_deep := %s; c_asked := %s |}" % (
         g_bool(case["x"]), g_N(m["entries"][case["entry"]]), g_obs(obs),
-        g_opt(None if cid is None else g_N(cid)), g_list([g_N(i) for i in sites[:12]], "N"), g_bool(selfref(case)), g_bool(deep(case)))
+        g_opt(None if cid is None else g_N(cid)), g_list([g_N(i) for i in sites[:12]], "N"), g_bool(selfref(case)), g_bool(deep(case)), g_bool(asked(case)))
 
 
 def nontrivial_key(case, obs):
     if obs["k"] == "ret":
         return None
-    return json.dumps([case["shape"], case["x"], case["entry"], case["input"], case.get("dcf"), case.get("files"), case.get("stdin")], sort_keys=True)
+    return json.dumps([case["shape"], case["x"], case["entry"], case["input"], case.get("dcf"), case.get("files"), case.get("stdin"), case.get("history")], sort_keys=True)
 
 
 def category(case, obs):
@@ -675,6 +726,8 @@ def describe(case, obs):
     d = {"parser_shape": case["shape"], "exit_on_error": case["x"], "method": case["entry"], "input": case["input"]}
     if case.get("stdin") == "none":
         d["stdin"] = "closed (sys.stdin is None)"
+    if case.get("history"):
+        d["earlier_calls_on_the_same_parser"] = case["history"]
     if case.get("dcf") is not None:
         d["default_config_file_content"] = case["dcf"]
     if case.get("files"):
@@ -697,6 +750,15 @@ def shrink(case):
         yield {k: v for k, v in case.items() if k != "dcf"}
     if case.get("stdin"):
         yield {k: v for k, v in case.items() if k != "stdin"}
+    if case.get("history"):
+        yield {k: v for k, v in case.items() if k != "history"}
+        if len(case["history"]) > 1:
+            for i in range(len(case["history"])):
+                yield dict(case, history=case["history"][:i] + case["history"][i + 1:])
+        for i, h in enumerate(case["history"]):
+            if isinstance(h["input"], list) and len(h["input"]) > 1:
+                for j in range(len(h["input"])):
+                    yield dict(case, history=case["history"][:i] + [dict(h, input=h["input"][:j] + h["input"][j + 1:])] + case["history"][i + 1:])
     if case.get("files"):
         yield {k: v for k, v in case.items() if k != "files"}
     if isinstance(inp, list):
